@@ -8,14 +8,14 @@ CONSTANTS
   MaxTag = 0
   M = 16
   InitEp = {6}
-  MaxEp = 9
-  MaxOps = 3
+  MaxEp = 10
+  MaxOps = 2
   MaxDepth = 3
   ExpAge = 3
   CasAge = 3
   OpsEnabled = {"load","store","drop","pin","collect"}
   Scen = "chain"
-  Fix = {}
+  Fix = {"pin", "inc", "mark", "stamp", "wmany", "newmany0"}
   Mut = {}
-INVARIANTS TypeOK C01 C01Link C03 Once NoUnderflow EpochBound DepthBound
+INVARIANTS TypeOK C01 C01Link C02 C03 Once NoUnderflow EpochBound DepthBound FlagFirst
 CHECK_DEADLOCK FALSE
